@@ -397,6 +397,16 @@ func genWitness(rng *rand.Rand, g *GenesisSpec) Op {
 	return op
 }
 
+// genWitnessCalm: a witness transaction in which no frame reverts - a few payments to the fresh sink, looked at before
+// and touched between / after (whatever the StateDB remembers about the sink stays alive until the commit).
+func genWitnessCalm(rng *rand.Rand, g *GenesisSpec) Op {
+	var legs []string
+	for k, n := 0, 1+rng.IntN(3); k < n; k++ {
+		legs = append(legs, "xfer:"+pick(rng, "", "c", "d", "cc", "c.c"))
+	}
+	return Op{K: "wit", W: rng.IntN(g.Wallets), A: legs, Mut: pick(rng, "tb+ta", "tb+tm", "tb+tm+ta", "ta", "tb"), Gas: pick(rng, "", "i+900000")}
+}
+
 func genC03(rng *rand.Rand, seed uint64, tier string) *Script {
 	g := pcGenesis(rng)
 	g.Validators = 1 + rng.IntN(2)
@@ -431,7 +441,11 @@ func genC03(rng *rand.Rand, seed uint64, tier string) *Script {
 				ops = append(ops, Op{K: "eth", W: rng.IntN(g.Wallets), To: RandAddr(rng.IntN(nRand)).Hex(), Typ: pick(rng, 0, 2), Price: "b+1", Tip: "1",
 					Gas: pick(rng, "i+400000", "i+2000000"), Val: pick(rng, "0", "0", "1"), Data: hexWord(rng.IntN(2))})
 			case k < 5:
-				ops = append(ops, genWitness(rng, &g))
+				if rng.IntN(6) == 0 {
+					ops = append(ops, genWitnessCalm(rng, &g))
+				} else {
+					ops = append(ops, genWitness(rng, &g))
+				}
 			case k < 7: // single precompile calls through chains with reverting frames
 				ch := pick(rng, "c!", "c.c!", "c!.c", "d!", "c.d!", "cc!", "c+.c!")
 				ops = append(ops, genPcCall(rng, &g, ch))
